@@ -8,7 +8,7 @@ for mp in sorted(glob.glob(V+'/seeded/*/meta.json')):
     checks = meta.get('checks') or list(dict.fromkeys(meta.get('detected_by', []) + meta.get('missed_by', [])))
     first_missed = meta.get('missed_before_strengthening', meta.get('missed_by', []))
     det, mis, rep = [], [], {}
-    subprocess.check_call(['git','-C','/repo','apply',os.path.join(d,'patch.diff')])
+    subprocess.check_call(['git','-C',os.environ.get('DV_REPO','/repo'),'apply',os.path.join(d,'patch.diff')])
     try:
         for c in checks:
             r=subprocess.run([V+'/check',c],stdout=subprocess.PIPE,stderr=subprocess.STDOUT,text=True)
@@ -16,7 +16,7 @@ for mp in sorted(glob.glob(V+'/seeded/*/meta.json')):
             if r.returncode==1 and 'VIOLATION' in r.stdout: det.append(c); rep[c]=lines[:3]
             else: mis.append(c)
     finally:
-        subprocess.check_call(['git','-C','/repo','checkout','--','.'])
+        subprocess.check_call(['git','-C',os.environ.get('DV_REPO','/repo'),'checkout','--','.'])
     meta.update({'checks': checks, 'detected_by': det, 'missed_by': mis, 'reports': rep, 'missed_before_strengthening': first_missed})
     json.dump(meta, open(mp,'w'), indent=1)
     print('%-8s breaks %s  detected_by=%s missed_by=%s (missed before strengthening: %s)' % (meta['id'], meta['breaks_property'], det, mis, first_missed))
